@@ -910,8 +910,10 @@ func legalFact(ctx *Context, fact string) error {
 // legalFact will return an error if the fact includes the given
 // property at the top level.
 func legalFactWithout(ctx *Context, fact string, prop string) error {
-	if 0 < strings.Index(fact, prop) {
-		// Little optimization
+	if 0 < strings.Index(fact, prop) || strings.Contains(fact, "\\") {
+		// Little optimization: only parse the fact if its text
+		// mentions the property -- or has an escape sequence, which
+		// could spell it.
 		var m map[string]interface{}
 		err := json.Unmarshal([]byte(fact), &m)
 		if err != nil {
